@@ -297,7 +297,18 @@ func (v Val) Canon() Val {
 			ks[i] = out.Keys[i].String()
 			order[i] = i
 		}
-		sort.SliceStable(order, func(a, b int) bool { return ks[order[a]] < ks[order[b]] })
+		// keys that print alike can coexist (NaN != NaN: every insertion of a NaN key adds an entry): order those
+		// entries by their values, so that the canonical form does not depend on the order they came in
+		es := make([]string, len(v.Keys))
+		for i := range v.Keys {
+			es[i] = out.Elems[i].String()
+		}
+		sort.SliceStable(order, func(a, b int) bool {
+			if ks[order[a]] != ks[order[b]] {
+				return ks[order[a]] < ks[order[b]]
+			}
+			return es[order[a]] < es[order[b]]
+		})
 		keys := make([]Val, len(order))
 		elems := make([]Val, len(order))
 		for i, o := range order {
